@@ -40,7 +40,9 @@ def no_borrowed_mutation(ctx, rule: str, modules, floor: int) -> None:
     p = ctx.project
     n = 0
     for q, f in sorted(p.funcs.items()):
-        if f.module.name not in modules or not _public(f):
+        # (a function is counted under the module it is reachable from: one moved to a private module and imported back
+        # keeps the name the rules know)
+        if not (f.module.name in modules or q.rsplit('.', 1)[0] in modules) or not _public(f):
             continue
         if is_helper(p, q):
             # not a documented entry point: an internal helper may well work in place on what it is handed; its
